@@ -72,6 +72,8 @@ pub fn addr2(a: &v2::Addresses) -> RefAddr2 {
 pub fn mk_addr2(a: &RefAddr2) -> v2::Addresses {
     match a {
         RefAddr2::Unspec => v2::Addresses::Unspecified,
+        RefAddr2::V4 { src, dst, sport, dport } if (src[3] ^ dst[3] ^ *sport as u8) & 1 == 1 => v2::Addresses::IPv4(v2::IPv4::new(*src, *dst, *sport, *dport)),
+        RefAddr2::V6 { src, dst, sport, dport } if (src ^ dst ^ *dport as u128) & 1 == 1 => v2::Addresses::IPv6(v2::IPv6::new(src.to_be_bytes(), dst.to_be_bytes(), *sport, *dport)),
         RefAddr2::V4 { src, dst, sport, dport } => v2::Addresses::IPv4(v2::IPv4 {
             source_address: std::net::Ipv4Addr::from(*src),
             destination_address: std::net::Ipv4Addr::from(*dst),
@@ -89,7 +91,12 @@ pub fn mk_addr2(a: &RefAddr2) -> v2::Addresses {
             let mut d = [0u8; 108];
             s.copy_from_slice(src);
             d.copy_from_slice(dst);
-            v2::Addresses::Unix(v2::Unix { source: s, destination: d })
+            // both public ways of making the value: the struct literal, and (for every other value, by content) the constructor
+            if src.iter().chain(dst.iter()).fold(0u8, |x, b| x.wrapping_add(*b)) & 1 == 0 {
+                v2::Addresses::Unix(v2::Unix { source: s, destination: d })
+            } else {
+                v2::Addresses::Unix(v2::Unix::new(s, d))
+            }
         }
     }
 }
